@@ -64,7 +64,9 @@ func (rows *leveldbRows) Clear() {
 	if err := rows.db.Close(); err != nil {
 		panic(err)
 	}
+	verifYield("leveldb.Clear.closed")
 	rows.db = rows.newFunc(true)
+	verifYield("leveldb.Clear.reopened")
 }
 
 func (rows *leveldbRows) Close() {
